@@ -553,7 +553,7 @@ def mapObjFill (keys : List String) (vals : List Value) :
     match lookupVal n keys vals with
     | some v => (mapObjFill keys vals ns ts os).map (v :: ·)
     | none =>
-      if o then (mapObjFill keys vals ns ts os).map (Value.null t :: ·)
+      if o then (mapObjFill keys vals ns ts os).map (Value.null t.stripOpt :: ·)
       else .err "map has no element for required attribute"
   | _, _, _ => .ok []
 
